@@ -46,6 +46,32 @@ def dirc_emptycycle(exe, rng, i):
     return pre + ["closedev 0"] + muts + ["opendev 0 1", "mount 0 0 1", "usedirc 1", f"chdir 0 0 {hx(b'empty')}", "list 0 0 0", "toroot 0 0",
                                          "list 0 0 1", "usedirc 0", "list 0 0 1", "unmount 0 0", "closedev 0"]
 
+def link_cycle(rng, i):
+    """an image (independent writer) with hard links to a directory and to a file whose `realEntry` pointers are redirected:
+    to the link block itself, or to each other; entered with adfChangeDir / opened through the link"""
+    import struct, imgwriter as iw
+    ffs, intl = rng.random() < 0.5, rng.random() < 0.3
+    img = iw.Image(nblocks=1760, ffs=ffs, intl=intl, dirc=False, rng=rng, placement="random", chain_order="random", garbage=False)
+    d = iw.Dir(b"dd", date=(10, 1, 1)); d.kids.append(iw.File(b"in", b"abc", date=(11, 1, 1)))
+    f = iw.File(b"ff", b"x" * 700, date=(12, 1, 1))
+    l1 = iw.HardLink(b"ln", d); l2 = iw.HardLink(b"lf", f); l3 = iw.HardLink(b"ln2", d)
+    kids = [d, f, l1, l2, l3]
+    data = bytearray(img.build(kids))
+    def poke(blkno, off, val):
+        struct.pack_into(">I", data, blkno * 512 + off, val)
+        struct.pack_into(">I", data, blkno * 512 + 20, 0)
+        s_ = sum(struct.unpack(">128I", data[blkno * 512:(blkno + 1) * 512])) & 0xffffffff
+        struct.pack_into(">I", data, blkno * 512 + 20, (-s_) & 0xffffffff)
+    kind = i % 3
+    if kind == 0: poke(l1.block, 0x1d4, l1.block)                       # a link to itself
+    elif kind == 1: poke(l1.block, 0x1d4, l3.block); poke(l3.block, 0x1d4, l1.block)   # two links to each other
+    else: poke(l2.block, 0x1d4, l2.block); poke(l1.block, 0x1d4, l2.block)
+    p = os.path.join(vlib.scratch(), f"c11lnk_{i}.img")
+    with open(p, "wb") as fh: fh.write(data)
+    hx = gen.hx
+    return [f"loadimg 0 {p}", "opendev 0 1", "mount 0 0 1", "list 0 0 1", f"chdir 0 0 {hx(b'ln')}", "list 0 0 0", "toroot 0 0",
+            f"chdir 0 0 {hx(b'ln2')}", "toroot 0 0", f"open 1 0 0 {hx(b'lf')} 1", "read 1 1000", "close 1", "list 0 0 1", "unmount 0 0", "closedev 0"], p
+
 _BIG = {}
 def bmext_hostile(exe, rng, i):
     """a library-made hardfile of more than 101602 blocks (26+ bitmap pages, one bitmap-extension block) whose extension
@@ -106,6 +132,14 @@ def run(res):
         if o:
             cb, paths, tie, san, crash, fault = hist.run_plain(exe, ["readlimit 20000"] + o, timeout=60)
             rdb.append(dict(ops=o, cb=cb, tie=tie, san=san, crash=crash, fault=fault))
+    for i in range(6 if res.tier == "quick" else 60):
+        o, pth = link_cycle(vlib.rng_for(res.seed, f"C11lnk/{i}"), i)
+        cb, paths, tie, san, crash, fault = hist.run_plain(exe, ["readlimit 20000"] + o, timeout=60)
+        try:
+            with open(pth, "rb") as fh: dat = fh.read()
+            os.unlink(pth)
+        except OSError: dat = None
+        rdb.append(dict(ops=o, cb=cb, tie=tie, san=san, crash=crash, fault=fault, data=dat, path=pth))
     with ThreadPoolExecutor(4) as ex: rdb += list(ex.map(big, range(3, 7 if res.tier == "quick" else 60)))
     bad, ties = [], []
     for r in results:
